@@ -39,6 +39,11 @@ import (
 // makes exactly that Publish call return an error and queues nothing. The
 // period the node currently asks the clock for (NewTicker and every Reset) is
 // part of the projection at every step (offSet).
+// A history may start from a running cluster (model constant Boot, see boot):
+// the mixed histories - a crash, clean unregisters, joins and restarts of
+// DIFFERENT peers inside one timeout window - are then replayed tick by tick,
+// and GetPeers() of every running node is compared with the model at every
+// instant, in particular at each entry's deadline and the tick after it.
 
 const c18Hang = 5 * time.Second
 
@@ -286,6 +291,49 @@ func (h *c18Harness) Reset(init map[string]any) error {
 		h.status[id] = "new"
 	}
 	h.timing, h.panicked = "", ""
+	return h.boot(params)
+}
+
+// boot builds the running cluster the model's Init describes (constant Boot):
+// the nodes are started one after the other, then each one's refresh ticker
+// fires once and every node handles that register - all at the same instant
+// of the fake clock, through the same code paths as the model's Start,
+// PublishTick and Deliver steps. Afterwards every node lists every node.
+func (h *c18Harness) boot(params map[string]any) (err error) {
+	defer func() {
+		if r := recover(); r != nil {
+			err = fmt.Errorf("boot: panic: %v", r)
+		}
+	}()
+	var ids []string
+	bs, _ := params["bootSet"].([]any)
+	for _, b := range bs {
+		if id, ok := b.(string); ok {
+			ids = append(ids, id)
+		}
+	}
+	sort.Strings(ids)
+	for _, id := range ids {
+		if err := h.Apply(map[string]any{"name": "Start", "n": id}); err != nil {
+			return fmt.Errorf("boot: start %s: %w", id, err)
+		}
+	}
+	for _, from := range ids {
+		if err := h.Apply(map[string]any{"name": "PublishTick", "n": from}); err != nil {
+			return fmt.Errorf("boot: tick %s: %w", from, err)
+		}
+		for _, to := range ids {
+			if err := h.Apply(map[string]any{"name": "Deliver", "to": to, "from": from, "kind": "R"}); err != nil {
+				return fmt.Errorf("boot: deliver %s -> %s: %w", from, to, err)
+			}
+		}
+	}
+	if h.panicked != "" {
+		return fmt.Errorf("boot: panic: %s", h.panicked)
+	}
+	for _, n := range h.nodes {
+		n.cbSeen = n.cbCount.Load() // the history starts here: no callback firing belongs to Init
+	}
 	return nil
 }
 
